@@ -72,7 +72,7 @@ def pins(dbpath):
         con.close()
 
 
-def run_case(op, presented, pinned, url="gemini://h.example/secret?q=1", response=b"20 text/gemini\r\nok\n", connect="ok"):
+def run_case(op, presented, pinned, url="gemini://h.example/secret?q=1", response=b"20 text/gemini\r\nok\n", connect="ok", verify_ssl=False):
     d = Path(tempfile.mkdtemp(prefix="pyvc_tofu_"))
     try:
         dbpath = d / "tofu.db"
@@ -85,7 +85,7 @@ def run_case(op, presented, pinned, url="gemini://h.example/secret?q=1", respons
         state = {"accepted": False, "connections": []}
 
         async def go():
-            client = GeminiClient(timeout=0.5, tofu_db_path=dbpath)
+            client = GeminiClient(timeout=0.5, tofu_db_path=dbpath, verify_ssl=verify_ssl)
             real_verify = client.tofu_db.verify
 
             def verify(host, port, c):
@@ -187,15 +187,15 @@ def judge(op, presented, pinned, r, connect="ok"):
 def bank(focus=None, ops=("get", "upload")):
     tried = 0
     for op in ops:
-        for presented in ("A", "B", "none", "empty", "garbage", "raises", "nossl"):
-            for pinned in (None, "A", "B"):
+        for verify_ssl, presented, pinned in [(v, pr, pi) for v in (False, True) for pr in ("A", "B", "none", "empty", "garbage", "raises", "nossl") for pi in (None, "A", "B")]:
+            if True:
                 tried += 1
-                r = run_case(op, presented, pinned)
+                r = run_case(op, presented, pinned, verify_ssl=verify_ssl)
                 bad = judge(op, presented, pinned, r)
                 if focus:
                     bad = [b for b in bad if f"[{focus}]" in b] or ([] if focus != "C03" else [b for b in bad if not b.startswith("[C1")])
                 if bad:
-                    return dict(confirmed=True, input=dict(operation=op, peer_presents=presented, pinned_before=pinned, url="gemini://h.example/secret?q=1"),
+                    return dict(confirmed=True, input=dict(operation=op, peer_presents=presented, pinned_before=pinned, verify_ssl=verify_ssl, url="gemini://h.example/secret?q=1"),
                                 observed=dict(violated=bad, result=repr(r["result"])[:200], writes=repr(r["writes"])[:300]),
                                 clause="with TOFU on: nothing is sent before the certificate passed pin verification; a response only for an absent/matching pin; pins change only by first-use pinning of the presented certificate")
         for connect in ("refused", "hang"):
